@@ -90,8 +90,13 @@ func (rsEngine) Run(prop string, seed uint64, tier string, replay *core.Schedule
 		cfg = SwarmConfig(r.Sub("cfg"))
 		t := r.Sub("tune")
 		// small per-node allowances so that a handful of concurrent relays reaches the limit
-		cfg.BaseRelaysPerPOKT = int64([]int{20, 40, 100, 400}[t.Intn(4)])
+		cfg.BaseRelaysPerPOKT = int64([]int{100, 400, 1000, 4000}[t.Intn(4)])
 		cfg.MinProofs = int64(t.Range(2, 4))
+		// enough servicers on every chain for a session to exist
+		if cfg.NNodes < 5 {
+			cfg.NNodes = 5
+		}
+		cfg.SessionNodeCount = int64(t.Range(1, 2))
 		cfg.Steps = t.Range(20, 70)
 	}
 	s := &Sim{prop: prop, tier: tier, cfg: cfg, res: res, txs: map[int]*TxRecord{}, byHash: map[string]*TxRecord{}, book: map[int64]*Dump{},
@@ -172,6 +177,13 @@ func (s *Sim) rsGen(r *core.Rand, round *rsRound) *RSStep {
 			}
 		}
 		if len(pending) > 0 {
+			// bias: let the claim pass reach its seal point early in about half of the rounds, so
+			// that relays run inside the window between its reading and its sealing of the evidence
+			for _, t := range round.tasks {
+				if t.Kind == "claim" && !t.done && t.parkedAt != "claim/before-seal" && r.Chance(0.5) {
+					return &RSStep{Op: "run", Task: t.id}
+				}
+			}
 			return &RSStep{Op: "run", Task: pending[r.Intn(len(pending))]}
 		}
 	}
@@ -179,9 +191,38 @@ func (s *Sim) rsGen(r *core.Rand, round *rsRound) *RSStep {
 		return &RSStep{Op: "block"}
 	}
 	st := &RSStep{Op: "round", App: appBase + r.Intn(s.cfg.NApps), Chain: s.cfg.Chains[r.Intn(len(s.cfg.Chains))]}
+	// prefer an application that is staked for the chain with a positive per-node allowance
+	if v := s.viewAt(s.sessionHeightAt(s.drv.Height)); v != nil {
+		type pair struct {
+			app   int
+			chain string
+		}
+		var ok []pair
+		for _, addr := range sortedAddrs(v.Apps) {
+			a := v.Apps[addr]
+			i := s.keyIndexOf(addr)
+			if i < 0 || a.Status != sdk.Staked {
+				continue
+			}
+			for _, c := range a.Chains {
+				h := pc.SessionHeader{ApplicationPubKey: KeyFor(s.cfg.KeySeed, i).PublicKey().RawString(), Chain: c, SessionBlockHeight: s.sessionHeightAt(s.drv.Height)}
+				if s.allowancePositive(h) {
+					ok = append(ok, pair{i, c})
+				}
+			}
+		}
+		if len(ok) > 0 && r.Chance(0.9) {
+			p := ok[r.Intn(len(ok))]
+			st.App, st.Chain = p.app, p.chain
+		}
+	}
 	k := r.Range(2, 6)
 	lateOK := s.sessionHeightAt(s.drv.Height) > s.bpsAt(s.drv.Height)
 	claim := r.Chance(0.5)
+	if lateOK && s.claimableEvidence(s.sessionHeightAt(s.drv.Height)-s.bpsAt(s.drv.Height)) {
+		// the previous session left evidence worth claiming: race its sealing with late relays
+		claim = r.Chance(0.85)
+	}
 	for i := 0; i < k; i++ {
 		t := RSTask{Kind: "relay"}
 		s.relayEntropy++
@@ -199,6 +240,37 @@ func (s *Sim) rsGen(r *core.Rand, round *rsRound) *RSStep {
 		st.Tasks = append(st.Tasks, RSTask{Kind: "claim"})
 	}
 	return st
+}
+
+// claimableEvidence: some servicer of this process holds unsealed evidence of that session with at
+// least the minimum number of proofs.
+func (s *Sim) claimableEvidence(sessionHeight int64) bool {
+	addrs := make([]string, 0, len(pc.GlobalPocketNodes))
+	for a := range pc.GlobalPocketNodes {
+		addrs = append(addrs, a)
+	}
+	sort.Strings(addrs)
+	seen := map[*pc.CacheStorage]bool{}
+	for _, a := range addrs {
+		st := pc.GlobalPocketNodes[a].EvidenceStore
+		if st == nil || seen[st] {
+			continue
+		}
+		seen[st] = true
+		it := pc.EvidenceIterator(st)
+		found := false
+		for ; it.Valid(); it.Next() {
+			e := it.Value()
+			if e.SessionBlockHeight == sessionHeight && e.NumOfProofs >= s.cfg.MinProofs && !st.IsSealed(e) {
+				found = true
+			}
+		}
+		it.Close()
+		if found {
+			return true
+		}
+	}
+	return false
 }
 
 // ---------------------------------------------------------------- rounds
@@ -223,6 +295,9 @@ func (s *Sim) rsStart(st *RSStep) *rsRound {
 		out := map[int]bool{}
 		disp, err := s.node.App.HandleDispatch(header)
 		if err != nil || disp == nil {
+			if err != nil {
+				s.res.Probe("dispatch_failed_" + strings.Join(strings.Fields(strings.ReplaceAll(err.Error(), "\n", " ")), "_"))
+			}
 			return out
 		}
 		for _, n := range disp.Session.SessionNodes {
